@@ -2,6 +2,7 @@ package props
 
 import (
 	"fmt"
+	"math"
 	"strings"
 	"time"
 
@@ -15,7 +16,7 @@ func init() {
 	core.Register(&core.Prop{
 		ID:         "C18",
 		Level:      "exploration",
-		Rule:       "for each (template, logical environment) the canonical realisation ([]any, map[string]any, int, float64, string; no pointers, no Drops) is the baseline and 8 (quick) / 24 (thorough) alternative realisations, chosen independently at every node of the value tree, must reproduce its result (bytes, or failure). Five families, each using a representation class only where the statement names it: (1) Drops by value and by pointer at any depth + typed slices, fixed arrays and map[string]T, under generated programs with every tag and filter family; (2) every integer/float width incl. unsigned under print, all comparison operators, case/when and the arithmetic filters; (3) pointers on values reached by variable or property lookup; (4) yaml.MapSlice under lookup and size; (5) []byte under printing and as string-filter receiver. Non-trivial = the alternative realisation differs from the canonical one in at least one node; distinct = distinct (template, realisation descriptor).",
+		Rule:       "for each (template, logical environment) the canonical realisation ([]any, map[string]any, int, float64, string; no pointers, no Drops) is the baseline and 8 (quick) / 24 (thorough) alternative realisations, chosen independently at every node of the value tree, must reproduce its result (bytes, or failure). Five families, each using a representation class only where the statement names it: (1) Drops by value and by pointer at any depth + typed slices, fixed arrays and map[string]T, under generated programs with every tag and filter family; (2) every integer/float width incl. unsigned under print, all comparison operators, case/when and the arithmetic filters, and unsigned values beyond int64 (as uint64, uint, uintptr, in a Drop) against the same integer in every width that holds it under print, comparison in both operand orders, case/when, sort and contains; (3) pointers on values reached by variable or property lookup; (4) yaml.MapSlice under lookup and size; (5) []byte under printing and as string-filter receiver. Non-trivial = the alternative realisation differs from the canonical one in at least one node; distinct = distinct (template, realisation descriptor).",
 		Exhaustive: func(string) bool { return false },
 		Assumptions: []string{
 			"json and inspect are compared across Drops, pointers and typed containers nested in the value (they spell data); across integer widths, []byte and ordered maps they, and type, expose the Go representation by design and are not used",
@@ -295,6 +296,56 @@ func runC18(c *core.Ctx) {
 			if !narrow.Same(wide) || !viaDrop.Same(wide) {
 				c.Violate("float-widths|large-whole|"+resClass(narrow), "floats of every width print and enter arithmetic by numeric value: a whole float32 prints as the float64 of the same value does",
 					map[string]any{"value": f, "source": src, "float64": wide.Brief(), "float32": narrow.Brief(), "float32_in_drops": viaDrop.Brief()})
+			}
+		}
+	}
+	// ---- (6d) unsigned values beyond int64: they have one value whatever the unsigned type that carries them, and the integer
+	// they meet in a comparison, a sort or a when clause is the same integer in every width, signed or not
+	if c.Shard == 19%c.NShards && c.Begin("unsigned beyond int64 against every width") {
+		src := "{{ big }}|{% if big > n %}gt{% else %}le{% endif %}|{% if n < big %}lt{% else %}ge{% endif %}|{% if big == n %}eq{% else %}ne{% endif %}|{% if n != big %}ne{% else %}eq{% endif %}|{% if big <= n %}le{% else %}gt{% endif %}|{% if n >= big %}ge{% else %}lt{% endif %}|" +
+			"{% case big %}{% when n %}same{% else %}other{% endcase %}|{{ l | sort | first }}|{{ l | sort | last }}|{% if l contains big %}has{% else %}not{% endif %}|{{ big == n }}{{ n > big }}"
+		bigs := []uint64{1 << 63, math.MaxUint64, 1<<63 + 1, math.MaxInt64 + 2, 1 << 63 | 1 << 31}
+		smalls := []int64{5, 0, 1, 127, -1, -128, 100, 255, 65535, math.MaxInt32, math.MinInt32, math.MaxInt64, math.MinInt64, -5}
+		for _, big := range bigs {
+			for _, n := range smalls {
+				mk := func(b, v any) map[string]any { return map[string]any{"big": b, "n": v, "l": []any{v, b, v}} }
+				base := core.Run(e, src, mk(big, n))
+				c.Eval(1)
+				alts := []any{int64(n), int(n), gen.DropV{X: n}}
+				if n >= math.MinInt8 && n <= math.MaxInt8 {
+					alts = append(alts, int8(n))
+				}
+				if n >= math.MinInt16 && n <= math.MaxInt16 {
+					alts = append(alts, int16(n))
+				}
+				if n >= math.MinInt32 && n <= math.MaxInt32 {
+					alts = append(alts, int32(n))
+				}
+				if n >= 0 {
+					alts = append(alts, uint(n), uint64(n), uintptr(n), &gen.DropP{X: uint64(n)})
+					if n <= math.MaxUint8 {
+						alts = append(alts, uint8(n))
+					}
+					if n <= math.MaxUint16 {
+						alts = append(alts, uint16(n), gen.NUint(n))
+					}
+					if n <= math.MaxUint32 {
+						alts = append(alts, uint32(n))
+					}
+				}
+				for _, bv := range []any{big, uint(big), uintptr(big), gen.DropV{X: big}} {
+					for _, nv := range alts {
+						res := core.Run(e, src, mk(bv, nv))
+						c.Eval(1)
+						c.Obs("alternative_realisations_compared", 1)
+						c.Obs("unsigned_beyond_int64_cases", 1)
+						c.Distinct("bigunsigned", fmt.Sprintf("%T/%T/%d/%d", bv, nv, big, n))
+						if !res.Same(base) {
+							c.Violate("integer-widths|unsigned-beyond-int64|"+resClass(res), "integers of every width compare by numeric value: an unsigned value beyond int64 meets the same integer in another width and the result changes",
+								map[string]any{"source": src, "big": fmt.Sprintf("%T(%d)", bv, big), "n_canonical": fmt.Sprintf("int64(%d)", n), "n_alternative": fmt.Sprintf("%T(%v)", nv, nv), "canonical_result": base.Brief(), "alternative_result": res.Brief()})
+						}
+					}
+				}
 			}
 		}
 	}
